@@ -575,6 +575,7 @@ impl<'a> Interp<'a> {
                     reads: vec![],
                     queries: vec![],
                     raw: Default::default(),
+                    complaint: Default::default(),
                 });
                 let reads = Self::do_reads(&ci.kv, &qnode.reads);
                 let nested: Vec<QSpec> = if depth >= 3 { vec![] } else { qnode.queries.clone() };
@@ -675,6 +676,7 @@ impl<'a> Interp<'a> {
             reads: vec![],
             queries: vec![],
             raw: Default::default(),
+            complaint: Default::default(),
         });
         let Some(node) = node else {
             // unknown node: the puppet returns an empty response
